@@ -1,0 +1,22 @@
+//go:build verif
+
+// Contracts for package config (comment-only; read by /verif/govc).
+
+package config
+
+// config.Setup has run before any handler, reader or client code executes.
+//@ global-invariant [config-loaded] Server != nil && Client != nil && Common != nil
+
+// os.Hostname is assumed not to fail on a running server (environment).
+//@ func Hostname
+//@   trusted
+//@   assigns nothing
+//@   ensures [hostname-known] isnil(result1)
+
+//@ func setOption
+//@   requires [ptrs] ltx != nil && options != nil
+//@   assigns *ltx, *options
+//@   ensures [map-kept] result0 == options
+//@ func DeserializeOptions
+//@   loop 1 invariant [options] options != nil
+//@   ensures [map-made] result0 != nil
